@@ -19,7 +19,7 @@ RULE = ("case = (generated HDF4 file, option set 1, option set 2).  Files: 0-3 n
         "0-3 GR images (1/3/4 components, all interlaces, palettes, chunked/compressed), 0-3 Vdatas (1-3 fields, "
         "attributes on vdata and fields, annotations), global SD/GR attributes, file labels/descriptions, lone palettes. "
         "Options: -t none/selected lists/'*' with NONE, RLE, HUFF n, GZIP n; -c none/selected/'*' with shapes or NONE; "
-        "-m absent or in {0,1,100,1024,2000,100000}; given on the command line or through an option file -f; a "
+        "-m absent, in {0,1,100,1024,2000,100000} or at / one below / one above the byte size of an object; given on the command line or through an option file -f; a "
         "fraction of deliberately invalid option sets (rank mismatch, unknown or non-compressible names, '*' with "
         "others, malformed strings) must be refused the way the model says.  The output is repacked again with a "
         "second independent option set.  All choices from one PRNG (VERIF_SEED).  A case is non-trivial when hrepack "
@@ -289,7 +289,11 @@ def gen_options(r, shadow, invalid=False):
                 lens.append(r.randrange(1, m + 1))
             items.append(("c", [g["path"] for g in grp], o["rank"], lens))
     if r.random() < 0.6:
-        items.append(("m", r.choice([0, 0, 1, 100, 1024, 2000, 100000])))
+        if objs and r.random() < 0.4:
+            # boundary knob: the threshold at, just below and just above the size of an object
+            items.append(("m", max(0, r.choice(objs)["bytes"] + r.choice([0, 0, 1, -1]))))
+        else:
+            items.append(("m", r.choice([0, 0, 1, 100, 1024, 2000, 100000])))
     r.shuffle(items)
     if invalid:
         how = r.choice(["rank", "noname", "vsname", "star+", "dup", "twostar"])
@@ -592,6 +596,10 @@ def one_pass(T, cid, inf, tin, items, use_file, outf, tag, structured=True):
         res["problems"].append(("status", "hrepack %s (rc=%d, output %s) but the model says %s [%s]; hrepack said: %s" % (
             got, rc, "written" if exists else "absent", expect, head, out[-300:].replace("\n", " | ")),
             expect == "ok" and structured))
+        if got == "ok" and tout is not None and not same:
+            # exit status 0 and an output file whose content differs from the input: a failing input of the property
+            res["problems"].append(("content", "hrepack exited 0 but the output's content differs: " +
+                                    (content_diff(tin, tout) or "?"), True))
         return res
     if got != "ok":
         return res
@@ -829,7 +837,9 @@ def run(ctx):
         for f in concurrent.futures.as_completed(futs):
             results[futs[f]["id"]] = f.result()
     nviol = 0
-    for c in cases:
+    # failing inputs of the property first (only the first three disagreements are written out)
+    order = sorted(cases, key=lambda c: 0 if any(p[3] for p in results[c["id"]].get("problems", [])) else 1)
+    for c in order:
         res = results[c["id"]]
         if res.get("generror"):
             stats["generator_errors"] += 1
